@@ -29,14 +29,14 @@ import (
 type OutcomeKind int
 
 const (
-	OkRows       OutcomeKind = iota // RESULT rows echoing the token
-	OkVoid                          // RESULT void
-	ErrMsg                          // ERROR with Msg
-	Silence                         // never answer
-	DropConn                        // close this connection without answering
-	DropHost                        // close every connection of this host without answering
-	RawReply                        // write RawFlags/RawOpcode/RawBody verbatim (stream id patched)
-	SilenceThenDropConn             // alias kept distinct for the logs: no answer, then close
+	OkRows              OutcomeKind = iota // RESULT rows echoing the token
+	OkVoid                                 // RESULT void
+	ErrMsg                                 // ERROR with Msg
+	Silence                                // never answer
+	DropConn                               // close this connection without answering
+	DropHost                               // close every connection of this host without answering
+	RawReply                               // write RawFlags/RawOpcode/RawBody verbatim (stream id patched)
+	SilenceThenDropConn                    // alias kept distinct for the logs: no answer, then close
 )
 
 type Outcome struct {
@@ -94,29 +94,32 @@ type Conn struct {
 }
 
 type Backend struct {
-	mu           sync.Mutex
-	Port         int
-	Prefix       string // "127.a.b." ; host n has IP Prefix+n
-	Hosts        map[string]*Host
-	Topology     []string // IPs advertised in system.local / system.peers
-	DC           string
-	DSEVersion   string
-	MaxVersion   primitive.ProtocolVersion
-	Script       map[string][]Outcome
-	Default      Outcome
-	Attempts     map[string]int
-	Log          []Rec
-	BadKeyspaces map[string]message.Message
-	PrepareErr   map[string][]Outcome // per prepared-id (hex) outcomes of PREPARE attempts
-	prepAttempts map[string]int
-	nextConn     int
-	seq          int
-	PrepText     map[string]string // prepared id hex -> query text
-	OnFrame      func(r *Rec)     // optional observer (called with be.mu held)
-	HostDefault  map[string]*Outcome // per-host outcome overriding scripts for data requests (nil = none)
-	Muted        map[string]bool     // hosts that read frames but never answer anything
-	HoldOptions  bool                // while set, OPTIONS (heartbeat) answers of started connections are withheld
-	heldOptions  []func()            // the withheld answers, in arrival order
+	mu             sync.Mutex
+	Port           int
+	Prefix         string // "127.a.b." ; host n has IP Prefix+n
+	Hosts          map[string]*Host
+	Topology       []string // IPs advertised in system.local / system.peers
+	DC             string
+	DSEVersion     string
+	MaxVersion     primitive.ProtocolVersion
+	Script         map[string][]Outcome
+	Default        Outcome
+	Attempts       map[string]int
+	Log            []Rec
+	BadKeyspaces   map[string]message.Message
+	PrepareErr     map[string][]Outcome // per prepared-id (hex) outcomes of PREPARE attempts
+	prepAttempts   map[string]int
+	nextConn       int
+	seq            int
+	PrepText       map[string]string   // prepared id hex -> query text
+	OnFrame        func(r *Rec)        // optional observer (called with be.mu held)
+	HostDefault    map[string]*Outcome // per-host outcome overriding scripts for data requests (nil = none)
+	Muted          map[string]bool     // hosts that read frames but never answer anything
+	HoldOptions    bool                // while set, OPTIONS (heartbeat) answers of started connections are withheld
+	heldOptions    []func()            // the withheld answers, in arrival order
+	HostPrepareErr map[string]*Outcome // per-host outcome of every PREPARE reaching that host (nil = accept)
+	UnpreparedWarn bool                // attach a warning to UNPREPARED answers (v4+)
+	StrictVersion  bool                // answer PROTOCOL_ERROR to frames whose version differs from the connection's STARTUP
 }
 
 var tokRe = regexp.MustCompile(`tok:([A-Za-z0-9_]+)`)
@@ -129,6 +132,7 @@ func New(prefix string, port int) *Backend {
 		Attempts: map[string]int{}, BadKeyspaces: map[string]message.Message{},
 		PrepareErr: map[string][]Outcome{}, prepAttempts: map[string]int{}, PrepText: map[string]string{},
 		Default: Outcome{Kind: OkRows}, HostDefault: map[string]*Outcome{}, Muted: map[string]bool{},
+		HostPrepareErr: map[string]*Outcome{},
 	}
 }
 
@@ -282,6 +286,32 @@ func (b *Backend) Mute(n int, on bool) {
 	b.mu.Unlock()
 }
 
+// SetHostPrepare makes every PREPARE reaching host n get this outcome (nil: accept again).
+func (b *Backend) SetHostPrepare(n int, o *Outcome) {
+	b.mu.Lock()
+	b.HostPrepareErr[b.IP(n)] = o
+	b.mu.Unlock()
+}
+
+func (b *Backend) SetUnpreparedWarn(on bool) {
+	b.mu.Lock()
+	b.UnpreparedWarn = on
+	b.mu.Unlock()
+}
+
+// Knows reports whether host n has the statement id (hex) prepared.
+func (b *Backend) Knows(n int, idh string) bool {
+	b.mu.Lock()
+	h := b.Hosts[b.IP(n)]
+	b.mu.Unlock()
+	if h == nil {
+		return false
+	}
+	h.mu.Lock()
+	defer h.mu.Unlock()
+	return h.Prepared[idh]
+}
+
 func (b *Backend) Forget(n int) {
 	b.mu.Lock()
 	h := b.Hosts[b.IP(n)]
@@ -402,9 +432,14 @@ func (c *Conn) writeRaw(b []byte) {
 	_, _ = c.c.Write(b)
 }
 
-func (c *Conn) sendMsg(stream int16, msg message.Message) {
+func (c *Conn) sendMsg(stream int16, msg message.Message) { c.sendMsgMod(stream, msg, nil) }
+
+func (c *Conn) sendMsgMod(stream int16, msg message.Message, mod func(*frame.Frame)) {
 	var buf bytes.Buffer
 	frm := frame.NewFrame(c.version, stream, msg)
+	if mod != nil {
+		mod(frm)
+	}
 	if c.compression != "" && msg.GetOpCode() != primitive.OpCodeReady && msg.GetOpCode() != primitive.OpCodeSupported {
 		frm.SetCompress(true)
 	}
@@ -514,6 +549,17 @@ func (c *Conn) handle(hdr, body, raw []byte) bool {
 		return true
 	}
 	c.version = version
+	if be.StrictVersion && c.started && byte(version) != c.startupVer {
+		be.mu.Lock()
+		rec.Kind = "version-mismatch"
+		c.logRec(rec)
+		be.mu.Unlock()
+		var buf bytes.Buffer
+		_ = codecs.DefaultRawCodec.EncodeFrame(frame.NewFrame(primitive.ProtocolVersion(c.startupVer), stream, &message.ProtocolError{ErrorMessage: "Invalid message version. Got " + version.String() + " but previous messages on this connection had version " + primitive.ProtocolVersion(c.startupVer).String()}), &buf)
+		c.writeRaw(buf.Bytes())
+		c.version = primitive.ProtocolVersion(c.startupVer)
+		return true
+	}
 
 	switch opcode {
 	case primitive.OpCodeOptions:
@@ -631,6 +677,10 @@ func (c *Conn) handle(hdr, body, raw []byte) bool {
 			o := outs[n-1]
 			out = &o
 		}
+		if hp := be.HostPrepareErr[c.host.IP]; hp != nil {
+			o := *hp
+			out = &o
+		}
 		rec.Attempt = n
 		c.logRec(rec)
 		if out == nil || out.Kind == OkRows || out.Kind == OkVoid {
@@ -644,8 +694,8 @@ func (c *Conn) handle(hdr, body, raw []byte) bool {
 			return c.apply(stream, *out, token)
 		}
 		c.sendMsg(stream, &message.PreparedResult{
-			PreparedQueryId:  id[:],
-			ResultMetadataId: id[:],
+			PreparedQueryId:   id[:],
+			ResultMetadataId:  id[:],
 			VariablesMetadata: &message.VariablesMetadata{},
 			ResultMetadata:    &message.RowsMetadata{ColumnCount: 0},
 		})
@@ -662,7 +712,7 @@ func (c *Conn) handle(hdr, body, raw []byte) bool {
 			rec.Token = token
 			c.logRec(rec)
 			be.mu.Unlock()
-			c.sendMsg(stream, &message.Unprepared{ErrorMessage: "unprepared", Id: msg.QueryId})
+			c.sendMsgMod(stream, &message.Unprepared{ErrorMessage: "unprepared", Id: msg.QueryId}, be.unpreparedMod(hdr[1]))
 			return true
 		}
 		rec.Kind = "execute"
@@ -680,7 +730,7 @@ func (c *Conn) handle(hdr, body, raw []byte) bool {
 					rec.PreparedID = idh
 					c.logRec(rec)
 					be.mu.Unlock()
-					c.sendMsg(stream, &message.Unprepared{ErrorMessage: "unprepared", Id: ch.Id})
+					c.sendMsgMod(stream, &message.Unprepared{ErrorMessage: "unprepared", Id: ch.Id}, be.unpreparedMod(hdr[1]))
 					return true
 				}
 			}
@@ -716,6 +766,22 @@ func (c *Conn) handle(hdr, body, raw []byte) bool {
 	c.logRec(rec)
 	be.mu.Unlock()
 	return c.apply(stream, out, token)
+}
+
+// unpreparedMod: a traced request gets its tracing id on the UNPREPARED answer too, and a
+// warning is attached while UnpreparedWarn is set.
+func (b *Backend) unpreparedMod(reqFlags byte) func(*frame.Frame) {
+	b.mu.Lock()
+	warn := b.UnpreparedWarn
+	b.mu.Unlock()
+	return func(f *frame.Frame) {
+		if reqFlags&byte(primitive.HeaderFlagTracing) != 0 {
+			f.SetTracingId(schemaVersion)
+		}
+		if warn && f.Header.Version >= primitive.ProtocolVersion4 {
+			f.SetWarnings([]string{"fb: statement re-prepared too often"})
+		}
+	}
 }
 
 func (c *Conn) apply(stream int16, out Outcome, token string) bool {
